@@ -20,10 +20,10 @@ ID = "C20"
 LEVEL = "exploration"
 RULE = (
     "case = generated configuration file with 1..4 servers: command = a per-case copy of a witness MCP server script (absolute path, possibly in a directory whose name has a space / non-ASCII), "
-    "args with spaces, quotes, backslashes, Unicode, empty strings; env absent / {} / values with spaces, '=', Unicode; timeout absent / int / float / numeric string; extra keys at every level; "
+    "args with spaces, quotes, backslashes, Unicode, empty strings; env absent / {} / values with spaces, '=', Unicode; the host's own HOME/TERM/USER/LOGNAME/SHELL set, unset or function-like differently before each entry point; timeout absent / int / float / numeric string; extra keys at every level; "
     "run through three entry points: load_config -> stdio_client -> send_initialize; __main__.test_server; run_command with a recording command; plus malformed classes (missing file, invalid JSON: "
     "truncated / trailing comma / empty, unknown server name); oracle: the witness child records argv, environ and every received line: argv == configured args, environment == what a control launch "
-    "with the configured (or documented default) environment shows, it saw initialize then notifications/initialized, timeout is float or None, test_server is True, run_command hands the command one "
+    "with the configured environment, or with the documented default computed independently of the library from the host's variables at that moment, shows, it saw initialize then notifications/initialized, timeout is float or None, test_server is True, run_command hands the command one "
     "stream pair per configured server; malformed -> FileNotFoundError / JSONDecodeError / ValueError, test_server False, run_command launches nothing and does not raise; "
     "non-trivial = args with whitespace/quotes/non-ASCII/empty strings, or env present, or >1 server; distinct = distinct configuration"
 )
@@ -90,6 +90,42 @@ class Silence:
         return False
 
 
+INHERITED = ["HOME", "LOGNAME", "PATH", "SHELL", "TERM", "USER"]
+
+
+def ref_default_environment() -> Dict[str, str]:
+    """the documented default for a server without its own env, stated independently of the library: the six
+    inherited variables with the host's current non-empty values, exported shell functions left out"""
+    return {k: os.environ[k] for k in INHERITED if os.environ.get(k) and not os.environ[k].startswith("()")}
+
+
+class HostEnv:
+    """set / unset host variables for the duration of one entry point (idempotent exit)"""
+
+    def __init__(self, changes: Dict[str, Any]) -> None:
+        self.changes = changes
+        self.saved: Optional[Dict[str, Optional[str]]] = None
+
+    def __enter__(self) -> "HostEnv":
+        self.saved = {k: os.environ.get(k) for k in self.changes}
+        for k, v in self.changes.items():
+            if v is None:
+                os.environ.pop(k, None)
+            else:
+                os.environ[k] = v
+        return self
+
+    def __exit__(self, *a: Any) -> None:
+        if self.saved is None:
+            return
+        for k, v in self.saved.items():
+            if v is None:
+                os.environ.pop(k, None)
+            else:
+                os.environ[k] = v
+        self.saved = None
+
+
 def _collect(script: str) -> List[Dict[str, Any]]:
     outs = []
     for f in sorted(glob.glob(glob.escape(script) + ".out.*.json")):
@@ -111,6 +147,7 @@ def check(case: Dict[str, Any]) -> Outcome:
     servers: List[Dict[str, Any]] = case.get("servers", [])
     malformed = case.get("malformed")
     root = tempfile.mkdtemp(prefix="vpbt_c20_")
+    restore: Optional[HostEnv] = None
     try:
         sub = os.path.join(root, case.get("dirname", "d"))
         os.makedirs(sub, exist_ok=True)
@@ -203,18 +240,32 @@ def check(case: Dict[str, Any]) -> Outcome:
 
         # ------------------------------------------------------------ expected env via control launch
         def expected_env(s: Dict[str, Any]) -> Dict[str, str]:
-            return dict(s["env"]) if s.get("env") else get_default_environment()
+            # documented default: the six inherited variables as the host has them *now* (function exports skipped)
+            return dict(s["env"]) if s.get("env") else ref_default_environment()
 
-        controls: Dict[str, Dict[str, Any]] = {}
+        control_cache: Dict[str, Dict[str, Any]] = {}
+
+        def control(s: Dict[str, Any]) -> Optional[Dict[str, Any]]:
+            env = expected_env(s)
+            key = json.dumps([s["name"], env], sort_keys=True)
+            if key not in control_cache:
+                sp = scripts[s["name"]]
+                subprocess.run([sp] + list(s.get("args", [])), env=env, input=b"", stdout=subprocess.DEVNULL, stderr=subprocess.DEVNULL, timeout=20)
+                got = _collect(sp)
+                if len(got) != 1:
+                    return None
+                control_cache[key] = got[0]
+            return control_cache[key]
+
+        host_env: List[Dict[str, Any]] = case.get("host_env", [{}, {}, {}])
         for s in servers:
-            sp = scripts[s["name"]]
-            subprocess.run([sp] + list(s.get("args", [])), env=expected_env(s), input=b"", stdout=subprocess.DEVNULL, stderr=subprocess.DEVNULL, timeout=20)
-            got = _collect(sp)
-            if len(got) != 1:
+            if control(s) is None:
                 out.classes = out.classes + ("control-launch-failed",)
                 out.nontrivial = False
                 return out
-            controls[s["name"]] = got[0]
+        if any(host_env) and any(not s.get("env") for s in servers):
+            out.classes = out.classes + ("host-environment-changes-between-launches",)
+            out.nontrivial = True
 
         def verify(entry: str, s: Dict[str, Any], recs: List[Dict[str, Any]]) -> bool:
             if len(recs) != 1:
@@ -225,7 +276,10 @@ def check(case: Dict[str, Any]) -> Outcome:
             if not strict_eq(rec["argv"], list(s.get("args", []))):
                 out.fail(f"child-argv-differs-from-configured-args:{entry}", f"configured {s.get('args', [])!r} child saw {rec['argv']!r}")
                 return False
-            ctl = controls[s["name"]]["environ"]
+            ctl_rec = control(s)
+            if ctl_rec is None:
+                return True
+            ctl = ctl_rec["environ"]
             if rec["environ"] != ctl:
                 extra = {k: v for k, v in rec["environ"].items() if k not in ctl}
                 missing = {k: v for k, v in ctl.items() if k not in rec["environ"]}
@@ -251,6 +305,8 @@ def check(case: Dict[str, Any]) -> Outcome:
                 await send_ping(r, w, timeout=10)
             return timeout, res
 
+        restore = HostEnv(host_env[0])
+        restore.__enter__()
         for s in servers:
             try:
                 timeout, res = asyncio.run(ep1(s))
@@ -266,9 +322,12 @@ def check(case: Dict[str, Any]) -> Outcome:
             if not verify("load_config+stdio_client", s, _collect(scripts[s["name"]])):
                 break
 
+        restore.__exit__(None, None, None)
         # ------------------------------------------------------------ entry point 2
         import chuk_mcp.__main__ as M
 
+        restore = HostEnv(host_env[1])
+        restore.__enter__()
         for s in servers:
             with Silence():
                 try:
@@ -282,9 +341,12 @@ def check(case: Dict[str, Any]) -> Outcome:
             if not verify("test_server", s, recs):
                 break
 
+        restore.__exit__(None, None, None)
         # ------------------------------------------------------------ entry point 3
         from chuk_mcp.mcp_client.host.server_manager import run_command
 
+        restore = HostEnv(host_env[2])
+        restore.__enter__()
         called: List[Any] = []
 
         async def cmd(streams):
@@ -316,6 +378,8 @@ def check(case: Dict[str, Any]) -> Outcome:
                     break
         return out
     finally:
+        if restore is not None:
+            restore.__exit__(None, None, None)
         shutil.rmtree(root, ignore_errors=True)
 
 
@@ -363,6 +427,11 @@ def cases(draw):
         names.add(s["name"])
         servers.append(s)
     case = {"servers": servers, "dirname": draw(st.sampled_from(["d", "dir with space", "dïr"])), "top_extra": draw(_extra), "ensure_ascii": draw(st.booleans())}
+    if draw(st.booleans()):
+        # the host's own environment differs from launch to launch (a long-running host process)
+        hv = st.dictionaries(st.sampled_from(["HOME", "TERM", "USER", "LOGNAME", "SHELL"]),
+                             st.sampled_from(["/tmp/vp home \u00e9", "/nonexistent", "dumb", "vt100", "vp-user", "\u00fc", "/bin/sh", None, "() { :; }; echo x"]), max_size=3)
+        case["host_env"] = [draw(hv), draw(hv), draw(hv)]
     m = draw(st.sampled_from([None] * 8 + ["missing_file", "truncated", "trailing_comma", "empty", "unknown_server"]))
     if m:
         case["malformed"] = m
